@@ -17,6 +17,13 @@
 //!            worm with zero biases), rows sum to 1.
 //!   witness-worm / witness-asym   fixed inputs: the worm kernel on the F11 / F17 witness graphs (oracle:
 //!            stationarity w.r.t. the reported energy -> FAIL on the unchanged tree = known findings).
+//!   witness-parity  fixed inputs (seed independent): long runs of `do_time_step(.., only_basic_moves = true)` on the
+//!            4-spin ring; oracle: the chain must leave the up-spin parity class of its start state and visit all 2^n
+//!            states ("repeated time steps sample spin states with probability ∝ exp(-beta E)" gives every state positive
+//!            probability). beta = 0 with an even spin-update count -> FAIL on the unchanged tree = known finding F29
+//!            (every flip accepted, edge moves flip two spins: parity conserved); control with an odd count -> ok.
+//!            Output token = what was observed (`conserved` / `mixing`); the model answers with its decision of the
+//!            irreducibility condition (M) of `Qmc.C19.step_irreducible_iff`.
 //!   regress-imp / regress-noedges  fixed inputs of the fixed findings F13 (importance sampling with signed
 //!            total J <= 0, all J = 0) and F18 (graph without edges).
 
@@ -1191,6 +1198,57 @@ fn mode_witness_tiny() {
     kern_case(&m1, 1.0, false, 2, false);
 }
 
+/// parity witness (F29): `paritywit <edges> <biases> <beta> <ns> <ne> <state0> <nsteps> <rngseed>` -> `conserved` | `mixing`.
+/// The RNG is a fixed SplitMix64 stream (no scripted words), independent of `--seed`.
+fn parity_case(m: &Model, beta: f64, ns: Option<usize>, ne: Option<usize>, s0: &[bool], nsteps: usize, rngseed: u64) {
+    let input = format!("paritywit {} {} {} {} {} {} {}", m.show(), rat(beta), opt(ns), opt(ne), bits(s0), nsteps, rngseed);
+    let mm = m.clone();
+    let s0v = s0.to_vec();
+    let r = catch(move || {
+        let mut g = mm.graph(&s0v, Shared::recording(vec![], rngseed), false);
+        let ups = |s: &[bool]| s.iter().filter(|b| **b).count() % 2;
+        let mut prev = ups(g.state_ref());
+        let mut changes = 0usize;
+        let mut seen = std::collections::BTreeSet::new();
+        for _ in 0..nsteps {
+            g.do_time_step(beta, ns, ne, None, Some(true)).unwrap();
+            let p = ups(g.state_ref());
+            if p != prev {
+                changes += 1;
+            }
+            prev = p;
+            seen.insert(g.clone_state());
+        }
+        (changes, seen.len())
+    });
+    match r {
+        Ok((changes, distinct)) => {
+            let total = 1usize << m.n();
+            // at beta = 0 the target law is uniform: 2000 steps visit all 2^n <= 16 states; for beta > 0 rare states may be missed
+            let oracle = if changes > 0 && (beta != 0.0 || distinct == total) {
+                Ok(())
+            } else {
+                Err(format!(
+                    "C19 parity of the number of up spins is conserved / not every state is sampled: GraphState::new_with_state_and_rng({}, edges {}, biases {}) then {} x do_time_step({:?}, {:?}, {:?}, None, Some(true)): parity_changes={}, distinct states visited {} of {} (every state has positive Boltzmann probability) [F29: with beta = 0 (or a constant energy) every proposed flip is accepted; an even number of single flips and any number of edge flips conserve the parity]",
+                    bits(s0), m.show_edges(), rats(&m.biases), nsteps, beta, ns, ne, changes, distinct, total
+                ))
+            };
+            emit(true, &input, if changes == 0 { "conserved" } else { "mixing" }, Some(oracle));
+        }
+        Err(p) => emit(true, &input, "PANIC", Some(Err(format!("panicked: {}", p)))),
+    }
+}
+
+fn mode_witness_parity() {
+    let ring = Model { edges: vec![((0, 1), 1.0), ((1, 2), 1.0), ((2, 3), 1.0), ((3, 0), 1.0)], biases: vec![0.5, -0.25, 0.0, 0.125] };
+    let s0 = [false; 4];
+    // F29: beta = 0, two spin updates per step
+    parity_case(&ring, 0.0, Some(2), Some(3), &s0, 2000, 0xF29);
+    // controls (oracle ok): odd count at beta = 0; even count at beta = 1/8 (energy not constant)
+    parity_case(&ring, 0.0, Some(3), Some(3), &s0, 2000, 0xF29);
+    parity_case(&ring, 0.125, Some(2), Some(3), &s0, 2000, 0xF29);
+}
+
 /// regression for fix aaa8c52 (was finding F18): a graph without edges (biases only); the edge move is a no-op
 fn mode_regress_noedges() {
     let m = Model { edges: vec![], biases: vec![0.5, -0.25] };
@@ -1430,6 +1488,7 @@ fn main() {
         "regress-imp" => mode_regress_imp(),
         "witness-asym" => mode_witness_asym(),
         "witness-tiny" => mode_witness_tiny(),
+        "witness-parity" => mode_witness_parity(),
         "regress-noedges" => mode_regress_noedges(),
         m => panic!("unknown mode {}", m),
     }
